@@ -215,39 +215,6 @@ theorem not_sectionKw_of_not_reserved {w : List Char} (h : isReserved w = false)
   | false => rfl
   | true => rw [sectionKw_reserved hs] at h; cases h
 
-theorem lower_natChars (n : Nat) : lower (natChars n) = natChars n := by
-  unfold lower
-  have : ∀ c ∈ natChars n, lowerChar c = c := by
-    intro c hc
-    have hd := natChars_dig n c hc
-    have e1 : ('A' : Char).toNat = 65 := by decide
-    have e6 : ('9' : Char).toNat = 57 := by decide
-    simp only [isDig, Bool.and_eq_true, decide_eq_true_eq, char_le_iff] at hd
-    unfold lowerChar
-    have : ¬ ('A' ≤ c) := by rw [char_le_iff]; omega
-    simp [this]
-  have h2 : ∀ c ∈ natChars n, lowerChar c = id c := this
-  rw [List.map_congr_left h2]; simp
-
-theorem generated_not_reserved (n : Nat) : isReserved ('c' :: natChars n) = false := by
-  have hl : lower ('c' :: natChars n) = 'c' :: natChars n := by
-    have : lowerChar 'c' = 'c' := by decide
-    simp only [lower, List.map_cons, this] at *
-    congr 1
-    exact lower_natChars n
-  simp only [isReserved, isKw, hl]
-  simp [reserved, kwMin, kwMax, kwSt1, kwBounds, kwBinary, kwGeneral, kwEnd, kwFree, kwInf]
-
-theorem rowName_not_reserved (i : Nat) (name : String) (h : name.toList ≠ [] → nameOk name = true) :
-    isReserved (rowName i name) = false := by
-  unfold rowName
-  cases hn : name.toList with
-  | nil => simpa using generated_not_reserved (i + 1)
-  | cons a as =>
-    have := h (by simp [hn])
-    simp only [nameOk, Bool.and_eq_true, Bool.not_eq_true'] at this
-    simpa [hn] using this.2
-
 theorem relWT_toks (c : Cmp) : ∃ t, (relWT c).2 = [t] ∧ relOf t = some (denoteRel c) ∧
     (∀ X, parseTail lexN (t :: X) = some ([], zero, t :: X)) ∧ (∀ v, t ≠ .name v) := by
   cases c <;> exact ⟨_, rfl, rfl, fun X => by simp [parseTail], fun v => by simp⟩
@@ -255,37 +222,39 @@ theorem relWT_toks (c : Cmp) : ∃ t, (relWT c).2 = [t] ∧ relOf t = some (deno
 theorem parseRows_rowLinesT (vars : List String) (hv : ∀ v ∈ vars, isReserved v.toList = false)
     (hz : lexN ['0'] = some zero) (w : List Char) (R0 : List Tok) (hw : isSectionKw w = true)
     (rows : List (LinRow (Ext K)))
-    (hr : ∀ r ∈ rows, (r.name.toList ≠ [] → nameOk r.name = true) ∧ (∀ c ∈ r.coeffs, CoefOk tok lexN c) ∧
-      CoefOk tok lexN r.rhs) :
-    ∀ (i fuel : Nat), rows.length + 1 ≤ fuel →
-      parseRows lexN fuel (fileToks (rowLinesT tok vars i rows) ++ .name w :: R0) =
-        some (denoteRows vars i rows, .name w :: R0) := by
+    (hr : ∀ r ∈ rows, (∀ c ∈ r.coeffs, CoefOk tok lexN c) ∧ CoefOk tok lexN r.rhs) :
+    ∀ (ns : List (List Char)), (∀ n ∈ ns, RowNameOk n) → ∀ (fuel : Nat), rows.length + 1 ≤ fuel →
+      parseRows lexN fuel (fileToks (rowLinesT tok vars ns rows) ++ .name w :: R0) =
+        some (denoteRows vars ns rows, .name w :: R0) := by
   induction rows with
   | nil =>
-    intro i fuel hf
+    intro ns _ fuel hf
     obtain ⟨f, rfl⟩ : ∃ f, fuel = f + 1 := ⟨fuel - 1, by omega⟩
-    simp [rowLinesT, fileToks, parseRows, hw, denoteRows]
+    cases ns <;> simp [rowLinesT, fileToks, parseRows, hw, denoteRows]
   | cons r rs ih =>
-    intro i fuel hf
+    intro ns hns fuel hf
     obtain ⟨f, rfl⟩ : ∃ f, fuel = f + 1 := ⟨fuel - 1, by simp at hf; omega⟩
-    obtain ⟨h1, h2, h3⟩ := hr r (by simp)
-    have hnr := rowName_not_reserved i r.name h1
-    have hns := not_sectionKw_of_not_reserved hnr
-    obtain ⟨t, ht, hrel, htail, htn⟩ := relWT_toks lexN r.cmp
-    have ih' := ih (fun r' h' => hr r' (by simp [h'])) (i + 1) f (by simp at hf; omega)
-    have hexpr := parseExpr_termWTs tok lexN r.coeffs vars h2 hv hz
-      (t :: (signedNumToks tok r.rhs ++ (fileToks (rowLinesT tok vars (i + 1) rs) ++ .name w :: R0))) zero _
-      (htail _) (by intro v rest e; exact absurd (List.cons.inj e).1 (htn v))
-    have hk : (if hasTerm r.coeffs vars then (zero : Ext K) else Arith.add zero zero) = zero := by
-      split
-      · rfl
-      · exact ext_add_zero ext_zero_finite
-    simp only [rowLinesT, fileToks, Line.toks, rowLineT, List.flatMap_cons, List.flatMap_append, List.flatMap_nil,
-      List.append_assoc, List.cons_append, List.nil_append, ht, numWT, List.append_nil]
-    simp only [parseRows, hns, Bool.false_eq_true, if_false, parseRows.parseRow, parseLabel]
-    have e : List.flatMap (fun x => x.2) (termWTs tok r.coeffs vars) = toksOf (termWTs tok r.coeffs vars) := rfl
-    rw [e, hexpr]
-    simp only [hrel, parseSignedNum_signed tok lexN h3, ih', denoteRows, hk]
+    cases ns with
+    | nil => simp [rowLinesT, fileToks, parseRows, hw, denoteRows]
+    | cons n ns =>
+      obtain ⟨h2, h3⟩ := hr r (by simp)
+      have hnr := (hns n (by simp)).2
+      have hnsk := not_sectionKw_of_not_reserved hnr
+      obtain ⟨t, ht, hrel, htail, htn⟩ := relWT_toks lexN r.cmp
+      have ih' := ih (fun r' h' => hr r' (by simp [h'])) ns (fun n' h' => hns n' (by simp [h'])) f (by simp at hf; omega)
+      have hexpr := parseExpr_termWTs tok lexN r.coeffs vars h2 hv hz
+        (t :: (signedNumToks tok r.rhs ++ (fileToks (rowLinesT tok vars ns rs) ++ .name w :: R0))) zero _
+        (htail _) (by intro v rest e; exact absurd (List.cons.inj e).1 (htn v))
+      have hk : (if hasTerm r.coeffs vars then (zero : Ext K) else Arith.add zero zero) = zero := by
+        split
+        · rfl
+        · exact ext_add_zero ext_zero_finite
+      simp only [rowLinesT, fileToks, Line.toks, rowLineT, List.flatMap_cons, List.flatMap_append, List.flatMap_nil,
+        List.append_assoc, List.cons_append, List.nil_append, ht, numWT, List.append_nil]
+      simp only [parseRows, hnsk, Bool.false_eq_true, if_false, parseRows.parseRow, parseLabel]
+      have e : List.flatMap (fun x => x.2) (termWTs tok r.coeffs vars) = toksOf (termWTs tok r.coeffs vars) := rfl
+      rw [e, hexpr]
+      simp only [hrel, parseSignedNum_signed tok lexN h3, ih', denoteRows, hk]
 
 /-! ### bounds, markings, end -/
 
@@ -493,22 +462,34 @@ theorem fileToks_length_ge (ls : List Line) (h : ∀ l ∈ ls, l.toks ≠ []) : 
     simp only [fileToks, List.length_cons, List.length_append]
     omega
 
-theorem rowLinesT_toks_ne (vars : List String) (i : Nat) (rows : List (LinRow (Ext K))) :
-    ∀ l ∈ rowLinesT tok vars i rows, l.toks ≠ [] := by
-  induction rows generalizing i with
-  | nil => simp [rowLinesT]
+theorem rowLinesT_toks_ne (vars : List String) (ns : List (List Char)) (rows : List (LinRow (Ext K))) :
+    ∀ l ∈ rowLinesT tok vars ns rows, l.toks ≠ [] := by
+  induction rows generalizing ns with
+  | nil => cases ns <;> simp [rowLinesT]
   | cons r rs ih =>
-    intro l hl
-    simp only [rowLinesT] at hl
-    rcases List.mem_cons.mp hl with rfl | hl
-    · simp [rowLineT, Line.toks]
-    · exact ih (i + 1) l hl
+    cases ns with
+    | nil => simp [rowLinesT]
+    | cons n ns =>
+      intro l hl
+      simp only [rowLinesT] at hl
+      rcases List.mem_cons.mp hl with rfl | hl
+      · simp [rowLineT, Line.toks]
+      · exact ih ns l hl
 
-theorem rowLinesT_length (vars : List String) (i : Nat) (rows : List (LinRow (Ext K))) :
-    (rowLinesT tok vars i rows).length = rows.length := by
-  induction rows generalizing i with
+theorem rowNamesFrom_length {α : Type} (used : List (List Char)) (i : Nat) (rows : List (LinRow α)) :
+    (rowNamesFrom used i rows).length = rows.length := by
+  induction rows generalizing used i with
   | nil => rfl
-  | cons r rs ih => simp [rowLinesT, ih]
+  | cons r rs ih => simp only [rowNamesFrom]; split <;> simp [ih]
+
+theorem rowLinesT_length (vars : List String) (ns : List (List Char)) (rows : List (LinRow (Ext K)))
+    (h : ns.length = rows.length) : (rowLinesT tok vars ns rows).length = rows.length := by
+  induction rows generalizing ns with
+  | nil => cases ns <;> rfl
+  | cons r rs ih =>
+    cases ns with
+    | nil => simp at h
+    | cons n ns => simp only [rowLinesT, List.length_cons]; rw [ih ns (by simpa using h)]
 
 theorem boundLinesT_toks_ne (ds : List (DomVar (Ext K))) : ∀ l ∈ boundLinesT tok ds, l.toks ≠ [] := by
   induction ds with
@@ -543,7 +524,7 @@ noncomputable def sectionLinesT (ds : List (DomVar (Ext K))) : List Line :=
 
 theorem linesLP_split (lm : LinModel (Ext K)) :
     linesLP tok lm = [⟨false, [dirWT lm.optType]⟩, objLineT tok lm, ⟨false, [kw "Subject", kw "To"]⟩]
-      ++ rowLinesT tok lm.vars 0 lm.rows ++ sectionLinesT tok lm.domain := by
+      ++ rowLinesT tok lm.vars (rowNames lm.rows) lm.rows ++ sectionLinesT tok lm.domain := by
   simp [linesLP, sectionLinesT, List.append_assoc]
 
 /-- tokens of the General part and End -/
@@ -664,10 +645,9 @@ theorem parseLP_linesLP (lm : LinModel (Ext K)) (wf : WellFormed tok lexN lm) :
   have hobj : ∀ c ∈ lm.objective, CoefOk tok lexN c := fun c hc => good c (by simp [coefNums, hc])
   have hoff : CoefOk tok lexN lm.offset := good _ (by simp [coefNums])
   have hv : ∀ v ∈ lm.vars, isReserved v.toList = false := fun v h => nameOk_not_reserved (wf.vars_ok v h)
-  have hrows : ∀ r ∈ lm.rows, (r.name.toList ≠ [] → nameOk r.name = true) ∧ (∀ c ∈ r.coeffs, CoefOk tok lexN c) ∧
-      CoefOk tok lexN r.rhs := by
+  have hrows : ∀ r ∈ lm.rows, (∀ c ∈ r.coeffs, CoefOk tok lexN c) ∧ CoefOk tok lexN r.rhs := by
     intro r hr
-    refine ⟨wf.rows_ok r hr, fun c hc => good c ?_, good _ ?_⟩
+    refine ⟨fun c hc => good c ?_, good _ ?_⟩
     · simp only [coefNums, List.mem_append, List.mem_flatMap]; right; exact ⟨r, hr, by simp [hc]⟩
     · simp only [coefNums, List.mem_append, List.mem_flatMap]; right; exact ⟨r, hr, by simp⟩
   have hdom : ∀ d ∈ lm.domain, isReserved d.name.toList = false := fun d h => nameOk_not_reserved (wf.dom_ok d h)
@@ -679,10 +659,10 @@ theorem parseLP_linesLP (lm : LinModel (Ext K)) (wf : WellFormed tok lexN lm) :
   -- sense, label, objective
   have hsense : parseSense ((Line.mk false [dirWT lm.optType]).toks ++
       ((objLineT tok lm).toks ++ ((Line.mk false [kw "Subject", kw "To"]).toks ++
-        (fileToks (rowLinesT tok lm.vars 0 lm.rows) ++ fileToks (sectionLinesT tok lm.domain))))) =
+        (fileToks (rowLinesT tok lm.vars (rowNames lm.rows) lm.rows) ++ fileToks (sectionLinesT tok lm.domain))))) =
       some ((match lm.optType with | .max => Sense.max | _ => Sense.min),
         (objLineT tok lm).toks ++ ((Line.mk false [kw "Subject", kw "To"]).toks ++
-        (fileToks (rowLinesT tok lm.vars 0 lm.rows) ++ fileToks (sectionLinesT tok lm.domain)))) := by
+        (fileToks (rowLinesT tok lm.vars (rowNames lm.rows) lm.rows) ++ fileToks (sectionLinesT tok lm.domain)))) := by
     have h1 : isKw kwMin ['M', 'i', 'n', 'i', 'm', 'i', 'z', 'e'] = true := by decide
     have h2 : isKw kwMax ['M', 'a', 'x', 'i', 'm', 'i', 'z', 'e'] = true := by decide
     have h3 : isKw kwMin ['M', 'a', 'x', 'i', 'm', 'i', 'z', 'e'] = false := by decide
@@ -697,15 +677,16 @@ theorem parseLP_linesLP (lm : LinModel (Ext K)) (wf : WellFormed tok lexN lm) :
   simp only [hobjline, hst, List.cons_append, List.nil_append, parseLabel]
   rw [parseExpr_objective tok lexN lm hobj hoff hv wf.zero_tok]
   have hsub : parseSubjectTo (.name "Subject".toList :: .name "To".toList ::
-      (fileToks (rowLinesT tok lm.vars 0 lm.rows) ++ fileToks (sectionLinesT tok lm.domain))) =
-      some (fileToks (rowLinesT tok lm.vars 0 lm.rows) ++ fileToks (sectionLinesT tok lm.domain)) := by
+      (fileToks (rowLinesT tok lm.vars (rowNames lm.rows) lm.rows) ++ fileToks (sectionLinesT tok lm.domain))) =
+      some (fileToks (rowLinesT tok lm.vars (rowNames lm.rows) lm.rows) ++ fileToks (sectionLinesT tok lm.domain)) := by
     have h1 : lower ['S', 'u', 'b', 'j', 'e', 'c', 't'] = ['s', 'u', 'b', 'j', 'e', 'c', 't'] := by decide
     have h2 : lower ['T', 'o'] = ['t', 'o'] := by decide
     simp [parseSubjectTo, h1, h2]
   simp only [hsub]
-  rw [eS, parseRows_rowLinesT tok lexN lm.vars hv wf.zero_tok w R0 hw lm.rows hrows 0 _ (by
-    have := fileToks_length_ge _ (rowLinesT_toks_ne tok lm.vars 0 lm.rows)
-    rw [rowLinesT_length] at this
+  rw [eS, parseRows_rowLinesT tok lexN lm.vars hv wf.zero_tok w R0 hw lm.rows hrows (rowNames lm.rows)
+    (rowNamesFrom_ok lm.rows wf.rows_ok _ _) _ (by
+    have := fileToks_length_ge _ (rowLinesT_toks_ne tok lm.vars (rowNames lm.rows) lm.rows)
+    rw [rowLinesT_length tok lm.vars (rowNames lm.rows) lm.rows (rowNamesFrom_length _ _ _)] at this
     simp only [List.length_append, List.length_cons]; omega)]
   simp only [← eS, parseSections_sections tok lexN lm.domain hdom wf.bounds_not_nan hbok wf.int_toks]
   rfl
